@@ -376,8 +376,19 @@ func (g *gen) node(depth int) Node {
 				n.Kids = g.nodes(depth-1, 3)
 			}
 		} else {
-			n.Callee = "param"
-			n.Legacy = rapid.IntRange(0, 3).Draw(g.t, "legacy") == 0
+			n.Callee = rapid.SampledFrom([]string{"param", "param", "card", "box", "index0", "index1"}).Draw(g.t, "callee")
+			switch n.Callee {
+			case "param":
+				n.Legacy = rapid.IntRange(0, 3).Draw(g.t, "legacy") == 0
+			case "card", "box":
+				e := g.strExpr(1)
+				n.E = &e
+				if rapid.IntRange(0, 3).Draw(g.t, "ignoredBlock") == 0 {
+					// these components ignore their children: the block must simply not appear
+					n.HasBlock = true
+					n.Kids = g.nodes(depth-1, 2)
+				}
+			}
 		}
 	case 19:
 		n.Kind = "children"
